@@ -919,13 +919,14 @@ def fam_cluster_pool(tier, base):
     cnt = lambda s: sum(1 for ln in lines if s in ln)
     if any(v["class"] == "envfail" for v in [json.loads(x) for x in lines if '"envfail"' in x][:1]):
         pass
-    runs = cnt('"ev":"Run"')
+    runs = cnt('"mode":"pool",')
     if runs < n:
         raise Broken("pool-pressure driver: %d scenarios gave only %d judged runs" % (n, runs))
     return dict(trace=trace, viols=viols, states=r.distinct, transitions=r.generated, configs=["MC_ClusterScen_quick.cfg", "Trace_Cluster.cfg"], window=0, exhaustive=False,
                 traces={"*": runs}, samples={"*": [json.loads(x) for x in lines[:1]]}, nontrivial={"C20": cnt('"target":"lock"')},
                 notes="%d scenarios run on core instances whose worker pool has 1, 2, 3 ... workers (a task submitted to a full pool is refused); the two smallest pools at which "
-                      "the operation returns are judged: %d runs, %d lock acquisitions checked against the global order" % (n, runs, cnt('"target":"lock"')))
+                      "the operation returns are judged: %d runs; of the %d runs with too small a pool (the operation never returns) the lock acquisitions are judged; "
+                      "%d lock acquisitions checked against the global order" % (n, runs, cnt('"mode":"pool-stuck"'), cnt('"target":"lock"')))
 
 
 ALSO["C20"] = ALSO["C20"] + ["cluster_pool"]
